@@ -1402,5 +1402,12 @@ fn main() {
 			v.witness["body_len"].as_u64().unwrap_or(u64::MAX),
 		)
 	});
-	finish(&ctx, ev, violations, None);
+	let mut inconclusive: Option<String> = None;
+	// AddressSanitizer: the quick workload of this check once more on an ASan build (real hyper / soketto / tokio IO)
+	if ctx.tier == Tier::Thorough && ctx.replay.is_none() {
+		if let Some(why) = jrv::sanit::merge_asan(jrv::sanit::run_asan("c19", "C19", ctx.seed, Duration::from_secs(2400)), &mut ev, &mut violations) {
+			inconclusive = inconclusive.or(Some(why));
+		}
+	}
+	finish(&ctx, ev, violations, inconclusive);
 }
